@@ -100,6 +100,7 @@ class C07(Check):
     def execute(self, case, env):
         SS.RECORD.clear()
         out = self._execute(case, env)
+        arch.absorb_destructor_error()
         # KF-47: failures of a Deflate64 folder whose input the inflate64 library itself cannot round-trip are marked as such
         return arch.tag_kf47(out, [(f, [m["data"] for m in added if m.get("kind") in ("file", "link") and m.get("data")]) for f, added in SS.RECORD])
 
